@@ -317,6 +317,32 @@ fn slot_generations(ctx: &CheckCtx, _hp: &'static HistProp) -> Option<Found> {
     ctx.search("generations", gen_case_strategy(), ctx.tier.pick(400, 8_000), 8, None, run_generations)
 }
 
+
+// ------------------------------------------------------------------------------------------ C13 under run() / block_on()
+// "An idle inserted by an idle callback runs in the following dispatch, never in the same one" also has to hold for the
+// dispatches run() and block_on() perform, including the last one before they return. C13 re-runs C11's deterministic
+// in-loop family and keeps its idle rule.
+
+fn c13_keep((info, v): CaseOutcome) -> CaseOutcome {
+    (info, v.filter(|v| v.rule.starts_with("C13.")))
+}
+
+fn c13_inloop(ctx: &CheckCtx, _hp: &'static HistProp) -> Option<Found> {
+    use crate::props::c11;
+    if let Some(f) = ctx.run_replays::<c11::InCase, _>("inloop", |c| c13_keep(c11::run_inloop(c))) {
+        return Some(f);
+    }
+    ctx.search("inloop", c11::in_strategy(), ctx.tier.pick(5_000, 150_000), 8, None, |c| c13_keep(c11::run_inloop(c)))
+}
+
+pub fn c13_replay(sub: &str, case: serde_json::Value) -> Result<Option<Violation>, String> {
+    if sub == "inloop" {
+        let c: crate::props::c11::InCase = serde_json::from_value(case).map_err(|e| e.to_string())?;
+        return Ok(c13_keep(crate::props::c11::run_inloop(&c)).1);
+    }
+    hist_replay(&C13, case)
+}
+
 // ------------------------------------------------------------------------------------------ C01
 
 pub static C01_META: PropMeta = PropMeta {
@@ -812,7 +838,7 @@ pub static C13: HistProp = HistProp {
     epoll_each_step: false,
     workers: 8,
     table: None,
-    extra: None,
+    extra: Some(c13_inloop),
 };
 
 // ------------------------------------------------------------------------------------------ C14
